@@ -245,6 +245,9 @@ namespace bloch::runtime {
         std::vector<size_t> m_frameBases;
         Value m_returnValue;
         bool m_hasReturn = false;
+        // A runtime error raised by a user destructor cannot propagate out of the shared_ptr
+        // deleter that runs it; it is kept here and raised at the next statement boundary.
+        std::optional<support::BlochError> m_deferredError;
         std::unordered_map<const Expression*, std::vector<int>> m_measurements;
         std::unordered_map<std::string, std::unordered_map<std::string, int>> m_trackedCounts;
         bool m_echoEnabled = true;
